@@ -1,7 +1,8 @@
 SPECIFICATION Spec
 CONSTANTS
-  Files = {"r", "a"}
+  Files = {"r", "b"}
   Root = "r"
+  SubFiles = {"b"}
   MaxDepth = 8
   FileSeq <- Seq2
   MaxStmts = 3
@@ -9,6 +10,6 @@ CONSTANTS
   GenSpellings = {"plain", "dot"}
   DevChoices <- DevIdeal
   MaxFaultAt = 0
-INVARIANTS LockDiscipline DepthBound LoopOnlyOnCycle NeverOverflow InitOnce OkOnlyAcyclic Emit
+INVARIANTS UrlsResolve LockDiscipline DepthBound LoopOnlyOnCycle NeverOverflow InitOnce OkOnlyAcyclic Emit
 PROPERTY Termination
 CHECK_DEADLOCK FALSE
